@@ -166,6 +166,29 @@ func propC04(o *out, r *rng, thorough bool) {
 			o.sample(base)
 		}
 	}
+	// systematic: for a base statement of every kind, every single token deleted, and every single token replaced by a
+	// placeholder - so that "the token after X is missing" is covered at every position, not by luck
+	perKind := 2
+	if thorough {
+		perKind = 12
+	}
+	for _, kind := range stmtKinds {
+		for k := 0; k < perKind; k++ {
+			base, _, _ := genStatement(r, kind, true)
+			toks := strings.Fields(base)
+			if len(toks) > 60 {
+				continue
+			}
+			for i := range toks {
+				del := append(append([]string{}, toks[:i]...), toks[i+1:]...)
+				c04One(o, strings.Join(del, " "), nil, "systematic-delete")
+				rep := append([]string{}, toks...)
+				rep[i] = "$p"
+				c04One(o, strings.Join(rep, " "), map[string]interface{}{"p": pick(r, vals)}, "systematic-replace")
+			}
+			c04One(o, strings.Join(toks, " ")+" "+toks[len(toks)-1], nil, "systematic-delete")
+		}
+	}
 	// random bytes and random token soups
 	for i := 0; i < n/3; i++ {
 		l := r.intn(40)
